@@ -624,8 +624,11 @@ func raceSolvers(file string, timeoutS int, all bool) (SolverResult, []SolverRes
 	}
 	sort.Slice(allRes, func(i, j int) bool { return allRes[i].Solver < allRes[j].Solver })
 	r := allRes[len(allRes)-1]
-	st := "unknown"
+	st := "error"
 	for _, x := range allRes {
+		if x.Status == "unknown" && st != "timeout" {
+			st = "unknown"
+		}
 		if x.Status == "timeout" {
 			st = "timeout"
 		}
